@@ -11,7 +11,7 @@
 From Coq Require Import NArith ZArith Lia List Bool Arith FMapPositive.
 From FatVerif Require Import Model.Base Model.Str Model.Slot Model.Time Model.Name Model.ShortName Model.DirSlots
   Spec.Image Spec.Abs Spec.Regions Model.VolDir Model.VolChainDir Proofs.ImageProofs Proofs.NameProofs Proofs.ShortNameProofs
-  Proofs.DirSlotsProofs Proofs.RegionsProofs Proofs.VolDirProofs.
+  Proofs.DirSlotsProofs Proofs.RegionsProofs Proofs.VolDirProofs Proofs.VolDirFormat.
 From FatVerif Require Model.Lfn Spec.Wf Proofs.TimeProofs Proofs.LfnProofs.
 Import ListNotations.
 Open Scope N_scope.
@@ -643,4 +643,214 @@ Proof.
   destruct Hcase as [(dv & C & EE & HX & ->)|(x & y & c & d & ne & E1 & E2 & E3 & L1 & L2 & A1 & A2 & A3 & Hsub)].
   - left. exists dv. do 3 (split; [assumption|]). intros o. apply put_chain_slots_same; assumption.
   - right. exists x, y, c, d, ne. rewrite (chain_dir_put g im l ss' Hg Hl Hsh). do 8 (split; [assumption|]). exact Hsub.
+Qed.
+
+(* ================================================================ 5. the rest of the tree does not depend on the directory's clusters *)
+
+(* every cluster a decoded node refers to: its own chain and, for a directory, everything below it *)
+Definition node_clusters (n : node) : list N := concat (Wf.node_chains n).
+Definition avoids (l : list N) (n : node) : Prop := forall c, In c (node_clusters n) -> ~ In c l.
+
+Lemma node_chains_dir e ch children iss labels :
+  Wf.node_chains (NDir e ch children iss labels) =
+  (match ch with Some l => [l] | None => [] end) ++ flat_map Wf.node_chains children.
+Proof.
+  reflexivity.
+Qed.
+
+Lemma avoids_dir_inv l e l' children iss labels : avoids l (NDir e (Some l') children iss labels) ->
+  (forall c, In c l' -> ~ In c l) /\ Forall (avoids l) children.
+Proof.
+  intros H. unfold avoids, node_clusters in H. rewrite node_chains_dir in H. cbn [app concat] in H. split.
+  - intros c Hc. apply H. apply in_or_app. left. exact Hc.
+  - apply Forall_forall. intros n Hn c Hc. apply H. apply in_or_app. right.
+    unfold node_clusters in Hc. apply in_concat in Hc. destruct Hc as (x & Hx & Hcx). apply in_concat. exists x. split; [|exact Hcx].
+    apply in_flat_map. exists n. split; assumption.
+Qed.
+
+Lemma chain_from_ge2 g im : forall fuel c l', chain_from g im c fuel = Some l' -> Forall (fun x => 2 <= x) l'.
+Proof.
+  induction fuel as [|f IH]; intros c l' H; cbn [chain_from] in H; [discriminate|].
+  destruct (in_range g c) eqn:R; [|discriminate].
+  assert (2 <= c) as H2 by (unfold in_range in R; apply andb_true_iff in R; destruct R as [R _]; apply N.leb_le in R; exact R).
+  destruct (fat_val g im c); try discriminate.
+  - injection H as <-. constructor; [exact H2|constructor].
+  - destruct (chain_from g im n f) as [l2|] eqn:E; [|discriminate]. injection H as <-. constructor; [exact H2|exact (IH _ _ E)].
+Qed.
+
+(* [im'] holds the bytes of [im] in every data cluster outside [l] *)
+Definition same_other_clusters (g : geom) (l : list N) (im im' : image) : Prop :=
+  forall c, 2 <= c -> ~ In c l -> cluster_bytes g im' c = cluster_bytes g im c.
+
+Lemma chain_bytes_avoid g l im im' l' : same_other_clusters g l im im' -> Forall (fun x => 2 <= x) l' ->
+  (forall c, In c l' -> ~ In c l) -> chain_bytes g im' l' = chain_bytes g im l'.
+Proof.
+  intros H H2 Hd. unfold chain_bytes. induction l' as [|c r IH]; cbn [flat_map]; [reflexivity|].
+  inversion H2 as [|? ? A1 A2]; subst. rewrite IH; [|exact A2|intros x Hx; apply Hd; right; exact Hx].
+  rewrite (H c A1 (Hd c (or_introl eq_refl))). reflexivity.
+Qed.
+
+(* an entry whose decoded node (chain, content, whole sub-tree) refers to no cluster of [l] decodes alike on an image that
+   differs only inside the clusters of [l] *)
+Lemma node_of_avoid g im im' l : fixed_root_geom g -> same_below_data g im im' -> same_other_clusters g l im im' ->
+  forall d, (forall es, Forall (avoids l) (decode_entries g im d es) -> decode_entries g im' d es = decode_entries g im d es) /\
+            (forall e, avoids l (node_of g im d e) -> node_of g im' d e = node_of g im d e).
+Proof.
+  intros Hg Hb Hc.
+  assert (forall d, (forall es, Forall (avoids l) (decode_entries g im d es) -> decode_entries g im' d es = decode_entries g im d es) ->
+                    forall e, avoids l (node_of g im d e) -> node_of g im' d e = node_of g im d e) as Step.
+  { intros d Q e Ha. unfold node_of in Ha |- *. rewrite (chain_from_below g im im' Hg Hb).
+    destruct (e_is_dot e); [reflexivity|].
+    destruct (if e_cluster e =? 0 then None else chain_from g im (e_cluster e) (chain_fuel g)) as [l'|] eqn:Ech; [|reflexivity].
+    assert (Forall (fun x => 2 <= x) l') as H2.
+    { destruct (e_cluster e =? 0); [discriminate|]. exact (chain_from_ge2 g im _ _ _ Ech). }
+    destruct (e_is_dir e).
+    - destruct (dir_scan (slots_of (chain_bytes g im l')) 0 [] (g_bits g =? 32)) as [[ces labels] iss] eqn:Sc.
+      destruct (avoids_dir_inv l e l' _ iss labels Ha) as [Hd Hch].
+      rewrite (chain_bytes_avoid g l im im' l' Hc H2 Hd), Sc. rewrite (Q ces Hch). reflexivity.
+    - assert (forall c, In c l' -> ~ In c l) as Hd.
+      { intros c Hcl. apply Ha. unfold node_clusters. cbn [Wf.node_chains concat]. rewrite app_nil_r. exact Hcl. }
+      rewrite (chain_bytes_avoid g l im im' l' Hc H2 Hd). reflexivity. }
+  induction d as [|d [IHq IHp]].
+  - assert (forall es, Forall (avoids l) (decode_entries g im 0 es) -> decode_entries g im' 0 es = decode_entries g im 0 es) as Q0
+      by (intros es _; reflexivity).
+    split; [exact Q0|exact (Step 0%nat Q0)].
+  - assert (forall es, Forall (avoids l) (decode_entries g im (S d) es) -> decode_entries g im' (S d) es = decode_entries g im (S d) es) as Q.
+    { intros es Ha. rewrite !decode_entries_S in *. apply map_ext_in. intros e He. apply IHp.
+      rewrite Forall_forall in Ha. apply Ha. apply in_map. exact He. }
+    split; [exact Q|exact (Step (S d) Q)].
+Qed.
+
+(* what a frame confined to the clusters of [l] gives the decoder *)
+Lemma chain_frame_reads im im' l : chain_geom (parse_geom im) -> chain_ok (parse_geom im) l -> chain_frame im im' l ->
+  same_below_data (parse_geom im) im im' /\ same_other_clusters (parse_geom im) l im im'.
+Proof.
+  intros Hg Hl (F1 & _). set (g := parse_geom im) in *. split.
+  - intros o Ho. apply F1. intros c _. left. pose proof (cluster_off_ge g c Hg). lia.
+  - intros c Hc Hn. unfold cluster_bytes. apply img_read_ext. intros i Hi. apply F1. intros c' Hc'.
+    destruct Hl as [_ Hr]. rewrite Forall_forall in Hr. specialize (Hr c' Hc').
+    assert (c' <> c) as Hne by (intros ->; contradiction).
+    destruct (cluster_ranges_disjoint g c' c Hg ltac:(lia) Hc Hne) as [D|D]; [right; lia|left; lia].
+Qed.
+
+Lemma node_of_dir_inv g im d e ed l children iss labels : node_of g im d e = NDir ed (Some l) children iss labels ->
+  ed = e /\ e_is_dot e = false /\ e_is_dir e = true /\ e_cluster e <> 0 /\
+  chain_from g im (e_cluster e) (chain_fuel g) = Some l /\
+  exists ces, dir_scan (slots_of (chain_bytes g im l)) 0 [] (g_bits g =? 32) = (ces, labels, iss) /\
+              children = decode_entries g im d ces.
+Proof.
+  unfold node_of. destruct (e_is_dot e); [discriminate|]. destruct (e_is_dir e); [|discriminate].
+  destruct (e_cluster e =? 0) eqn:E0; [discriminate|].
+  destruct (chain_from g im (e_cluster e) (chain_fuel g)) as [l'|]; [|discriminate].
+  destruct (dir_scan (slots_of (chain_bytes g im l')) 0 [] (g_bits g =? 32)) as [[ces lb] is0] eqn:Sc.
+  intros H. injection H as <- <- <- <- <-. split; [reflexivity|]. split; [reflexivity|]. split; [reflexivity|].
+  split; [apply N.eqb_neq; exact E0|]. split; [reflexivity|]. exists ces. split; [exact Sc|reflexivity].
+Qed.
+
+Lemma node_of_dir_intro g im d e l ces labels iss : e_is_dot e = false -> e_is_dir e = true -> e_cluster e <> 0 ->
+  chain_from g im (e_cluster e) (chain_fuel g) = Some l ->
+  dir_scan (slots_of (chain_bytes g im l)) 0 [] (g_bits g =? 32) = (ces, labels, iss) ->
+  node_of g im d e = NDir e (Some l) (decode_entries g im d ces) iss labels.
+Proof.
+  intros H1 H2 H3 H4 H5. unfold node_of. rewrite H1, H2. apply N.eqb_neq in H3. rewrite H3, H4, H5. reflexivity.
+Qed.
+
+(* (d) a SUB-DIRECTORY OF THE FIXED ROOT inside the whole decoded volume.  The root of [im] holds a directory node with chain
+   [l] whose own slots decode without issue; no other node of the root and no child of the directory refers to a cluster of
+   [l] ([avoids]: what the no-cross-link clause of Spec/Wf.v gives on a well-formed volume).  create_file in that directory
+   made a new entry: the decoded volume is the old one with ONE node - a plain empty file carrying the name - inserted among
+   the children of that directory; every other node of the tree (root entries, their sub-trees, the other children and
+   their sub-trees) is exactly as before; root issues, labels, geometry, status byte as before.
+   PARTIAL: depth 1 only (a directory referenced from the root), FAT12/16 only, and without the write-back of the
+   directory's own entry in the root (modification stamp: Model/VolChainDir.v). *)
+Theorem vol_chain_create_in_root_decodes_partial upper oem im l name now range im' ra ed children labels rb :
+  chain_geom (parse_geom im) -> chain_ok (parse_geom im) l -> chain_small (parse_geom im) l ->
+  TimeProofs.datetime_valid now = true ->
+  v_root (abs im) = ra ++ NDir ed (Some l) children [] labels :: rb ->
+  Forall (avoids l) (ra ++ rb) -> Forall (avoids l) children ->
+  vol_create_empty_file_chain upper oem im l name now = Some (Ok (Some range), im') ->
+  exists c1 c2 ne st,
+    children = c1 ++ c2 /\
+    v_root (abs im') = ra ++ NDir ed (Some l) (c1 ++ NFile ne None [] :: c2) [] labels :: rb /\
+    e_lfn ne = (if is_dot_name name then [] else utf16_encode name) /\ e_lfn_ok ne = true /\
+    e_size ne = 0 /\ e_cluster ne = 0 /\ e_attr ne = 0 /\
+    stamp_create now = Ok st /\
+    e_ctime_ms ne = create_time_0 st /\ e_ctime ne = create_time_1 st /\ e_cdate ne = create_date st /\
+    e_adate ne = access_date st /\ e_mtime ne = modify_time st /\ e_mdate ne = modify_date st /\
+    e_first_slot ne = fst range /\ e_sfn_slot ne + 1 = snd range /\
+    sfn_legal_b (e_sfn ne) = true /\ ~ In (e_sfn ne) (map e_sfn (map node_entry children)) /\
+    v_root_issues (abs im') = v_root_issues (abs im) /\ v_labels (abs im') = v_labels (abs im) /\
+    v_geom (abs im') = v_geom (abs im) /\ v_status (abs im') = v_status (abs im) /\
+    chain_frame im im' l.
+Proof.
+  intros Hg Hl Hsm Hnow Hroot Hav Hch H. set (g := parse_geom im) in *.
+  pose proof (proj1 Hg) as Hf. pose proof (fg_bits g Hf) as Hbits.
+  assert ((g_bits g =? 32) = false) as Hb32 by (apply N.eqb_neq; exact Hbits).
+  pose proof (vol_chain_create_confined upper oem im l name now _ im' Hg Hl H) as Hframe.
+  destruct (chain_frame_reads im im' l Hg Hl Hframe) as [Hbelow Hother]. fold g in Hbelow, Hother.
+  pose proof Hframe as (_ & _ & Hpg & _ & _ & _ & Hrr). fold g in Hpg, Hrr.
+  destruct (abs_scan_of im Hbits) as (es & ls & iss & Hscan & Habs). fold g in Hscan, Habs.
+  rewrite Habs in Hroot. cbn [abs_fixed v_root] in Hroot. change MAX_DEPTH with (S 23) in Hroot. rewrite decode_entries_S in Hroot.
+  apply map_eq_app in Hroot. destruct Hroot as (ea & eb' & -> & Ea & Eb).
+  apply map_eq_cons in Eb. destruct Eb as (e0 & eb & -> & Ed & Eb).
+  destruct (node_of_dir_inv g im 23 e0 ed l children [] labels Ed) as (-> & D1 & D2 & D3 & D4 & ces & Sc & ->).
+  rewrite Hb32 in Sc. fold (chain_dir_slots g im l) in Sc.
+  destruct (vol_chain_create_decodes upper oem im l name now range im' ces labels Hg Hl Hsm Sc Hnow H)
+    as (es1 & es2 & ne & st & E1 & E2 & E3 & E4 & E5 & E6 & E7 & E8 & ST & T1 & T2 & T3 & T4 & T5 & T6 & P1 & P2 & HL & HU & _).
+  fold g in E2.
+  (* abs im' *)
+  assert (g_bits (parse_geom im') <> 32) as Hbits' by (rewrite Hpg; exact Hbits).
+  assert (abs im' = abs_fixed g im' (ea ++ e0 :: eb) ls iss) as Habs'.
+  { rewrite <- Hpg. apply abs_fixed_root; [exact Hbits'|]. rewrite Hpg, Hrr. exact Hscan. }
+  destruct (node_of_avoid g im im' l Hf Hbelow Hother 23) as [_ P23].
+  destruct (node_of_avoid g im im' l Hf Hbelow Hother 22) as [_ P22].
+  apply Forall_app in Hav. destruct Hav as [Hra Hrb].
+  exists (map (node_of g im 22) es1), (map (node_of g im 22) es2), ne, st.
+  change (decode_entries g im 23 ces) with (map (node_of g im 22) ces) in *. rewrite E1, map_app in *.
+  split; [reflexivity|]. split.
+  { rewrite Habs'. cbn [abs_fixed v_root]. change MAX_DEPTH with (S 23). rewrite decode_entries_S, map_app. cbn [map]. f_equal.
+    - rewrite <- Ea. apply map_ext_in. intros e He. apply P23. rewrite Forall_forall in Hra. apply Hra. rewrite <- Ea. apply in_map. exact He.
+    - f_equal.
+      + rewrite (node_of_dir_intro g im' 23 e0 l (es1 ++ ne :: es2) labels [] D1 D2 D3);
+          [|rewrite (chain_from_below g im im' Hf Hbelow); exact D4|rewrite Hb32; exact E2].
+        change (decode_entries g im' 23 (es1 ++ ne :: es2)) with (map (node_of g im' 22) (es1 ++ ne :: es2)).
+        rewrite map_app. cbn [map]. apply Forall_app in Hch. destruct Hch as [Hc1 Hc2]. f_equal. f_equal; [|f_equal].
+        * apply map_ext_in. intros e He. apply P22. rewrite Forall_forall in Hc1. apply Hc1. apply in_map. exact He.
+        * apply node_of_empty_file.
+          -- unfold e_is_dot. destruct (sfn_legal_not_dot _ HL) as [-> ->]. reflexivity.
+          -- unfold e_is_dir. rewrite E7. reflexivity.
+          -- exact E6.
+        * apply map_ext_in. intros e He. apply P22. rewrite Forall_forall in Hc2. apply Hc2. apply in_map. exact He.
+      + rewrite <- Eb. apply map_ext_in. intros e He. apply P23. rewrite Forall_forall in Hrb. apply Hrb. rewrite <- Eb. apply in_map. exact He. }
+  do 15 (split; [assumption|]).
+  split. { rewrite <- map_app, map_node_entry, map_app. exact HU. }
+  rewrite Habs, Habs'. cbn [abs_fixed v_root_issues v_labels v_geom v_status].
+  split; [reflexivity|]. split; [reflexivity|]. split; [reflexivity|]. split; [|exact Hframe].
+  rewrite (g_status_off_fixed g Hbits). apply Hbelow. pose proof (root_off_ge g Hf). pose proof (data_after_root g Hf). lia.
+Qed.
+
+(* ================================================================ 6. an example volume with a sub-directory *)
+(* the 64-sector FAT12 volume of Proofs/VolDirFormat.v (device fill 0xD1; 16 root slots at 1536, data area at 2048, 512-byte
+   clusters = 16 slots) with a directory "D" put in by hand: root slot 1, first cluster 2 (FAT entry 2 = end of chain in both
+   copies), cluster 2 zeroed and holding "." and "..". *)
+Definition ex_dir_slot (name0 name1 : N) (cluster : N) : list N :=
+  [name0; name1; 32; 32; 32; 32; 32; 32; 32; 32; 32; 16; 0; 0; 0; 0; 33; 0; 33; 0; 0; 0; 0; 0; 33; 0; cluster; 0; 0; 0; 0; 0].
+Definition ex_sub_im : image :=
+  let i1 := img_write ex_vol_im (1536 + 32) (ex_dir_slot 68 32 2) in
+  let i2 := img_write (img_write i1 515 [255; 15]) (1024 + 3) [255; 15] in
+  img_write (img_write i2 2048 (repeat_N 0 512)) 2048 (ex_dir_slot 46 32 2 ++ ex_dir_slot 46 46 0).
+
+Lemma ex_sub_premises :
+  chain_geom (parse_geom ex_sub_im) /\ chain_ok (parse_geom ex_sub_im) [2] /\ chain_small (parse_geom ex_sub_im) [2] /\
+  Wf.wf_issues (fun x => x) ex_sub_im = [] /\
+  exists ed d1 d2, v_root (abs ex_sub_im) = [] ++ NDir ed (Some [2]) [NDot d1; NDot d2] [] [] :: [] /\
+                   Forall (avoids [2]) ([] ++ []) /\ Forall (avoids [2]) [NDot d1; NDot d2].
+Proof.
+  destruct ex_vol_premises as (bs & _ & _ & _ & Hg & _).
+  assert (parse_geom ex_sub_im = parse_geom ex_vol_im) as Epg by (vm_compute; reflexivity).
+  split; [split; [rewrite Epg; exact Hg|vm_compute; reflexivity]|].
+  split; [split; [repeat constructor; intros []|repeat constructor; vm_compute; try reflexivity; discriminate]|].
+  split; [vm_compute; reflexivity|]. split; [vm_compute; reflexivity|].
+  eexists. eexists. eexists. split; [vm_compute; reflexivity|]. split; [constructor|].
+  repeat constructor; intros c Hc; vm_compute in Hc; contradiction.
 Qed.
